@@ -22,6 +22,8 @@ def plan(pid, tier, seed):
         runs.append(("storage_mc", lambda: engines.storage_mc(tier, seed)))
     if pid in ("C01", "C08", "C09", "C12"):
         runs.append(("tour", lambda: engines.tour(tier, seed)))
+    if pid in ("C01", "C08", "C12"):
+        runs.append(("inductive", lambda: engines.inductive(tier, seed)))
     if pid in ("C12", "C10"):
         runs.append(("capacity", lambda: engines.capacity(tier, seed)))
     if pid in ("C03",):
